@@ -96,6 +96,10 @@ func (s *rrSegFetcher) doCheck() {
 		if state.complete {
 			// lazy remove completed streams
 			s.remove(state)
+			if state == first {
+				// the full-circle marker is gone, pick a new one
+				first = nil
+			}
 			continue
 		}
 
